@@ -172,6 +172,15 @@ func genParserHistory(t *rapid.T, x *parserExec, o histOpts) {
 			op = weighted(t, "op", o.write, o.fill, o.parse, o.drain, o.shrink, o.readFrom,
 				o.parseNil, o.resetNil, o.resetDat, o.readAt, o.byteAt, o.peekAt, o.ntlPair, o.resetDat)
 		}
+		if x.cfg.Kind == "BUF" && rapid.IntRange(0, 14).Draw(t, "bufReinit") == 0 {
+			// a bare ParserBuffer is initialised again (a value from a
+			// pool), mostly with a smaller geometry than the array it holds
+			nc := genPCfgOpt(t, "BUF", maxInt(cc.BufferSize/2, 8), false)
+			x.step(POp{Op: "reinit", Cfg: &nc})
+			cc = x.cc
+			bsz = minInt(cc.BufferSize, 1<<16)
+			continue
+		}
 		switch op {
 		case 0: // write a chunk
 			room := cc.BufferSize - x.buffered()
